@@ -411,10 +411,11 @@ func c16FormatOne(c *Ctx, pool *Pool, i int, tag string, seed uint64, in []byte)
 	c.ev.Fire("disk0_shape_"+sh.name, 1)
 	c.event(fmt.Sprintf("c16fmt|%d%s|f", i, tag), w.Argv, sh.name, o.Exit, o.Stdout, treeSig(o, ""), opSig(o))
 	if !o.TimedOut {
-		if sh.name == "name-max" && ref.FormatOK && o.Exit != 0 {
+		if sh.name == "name-max" && ref.FormatOK && gaveUp(o, sh, in) {
 			// no sibling name can be derived from a NAME_MAX name: a wrapper
-			// that needs one and says so (non-zero exit) has promised nothing
-			c.ev.Count("fault_runs_that_reported_failure", 1)
+			// that needs one and gives up (non-zero exit, or the file exactly
+			// as it was) has promised nothing
+			c.ev.Count("fault_runs_that_gave_up", 1)
 		} else if v := checkFormatF(ref, o, sh); v != nil {
 			c.candidate16Format(i, "format-f", v, in, w, &sh, nil)
 		}
@@ -438,8 +439,8 @@ func c16FormatOne(c *Ctx, pool *Pool, i int, tag string, seed uint64, in []byte)
 		c.ev.Fire("format_f_directory_accepts_no_new_entries", 1)
 		c.event(fmt.Sprintf("c16fmt|%d%s|f-deny", i, tag), wf.Argv, sh.name, of.Exit, treeSig(of, ""), opSig(of))
 		if !of.TimedOut {
-			if ref.FormatOK && of.Exit != 0 {
-				c.ev.Count("fault_runs_that_reported_failure", 1)
+			if ref.FormatOK && gaveUp(of, sh, in) {
+				c.ev.Count("fault_runs_that_gave_up", 1)
 			} else if v := checkFormatF(ref, of, sh); v != nil {
 				v.msg += " [fault: the directory accepts no new entries, existing files stay writable]"
 				c.candidate16Format(i, "format-f", v, in, wf, &sh, nil)
@@ -480,6 +481,20 @@ func checkFormatD(ref *Resp, o *CLIOutcome) *c16Viol {
 		return &c16Viol{"exit-on-error", "format -d exits 0 on a syntax error", nil}
 	}
 	return nil
+}
+
+// gaveUp: under an environment fault the property promises nothing, and the
+// pinned tree's own convention on a failed write is to print the error and
+// still exit 0. A faulted run is therefore judged only when it claims
+// success AND changed the file: non-zero exit, or the file byte for byte as
+// it was, is "gave up". What remains is the case that matters: exit 0 and a
+// file that is neither the old text nor the formatter's result.
+func gaveUp(o *CLIOutcome, sh fileShape, in []byte) bool {
+	if o.Exit != 0 {
+		return true
+	}
+	a, ok := o.After[sh.real]
+	return ok && a.Kind == "file" && bytes.Equal(a.Data, in)
 }
 
 func checkFormatF(ref *Resp, o *CLIOutcome, sh fileShape) *c16Viol {
@@ -572,6 +587,9 @@ func (c *Ctx) candidate16Format(caseIdx int, entry string, v *c16Viol, in []byte
 			nv = checkFormatD(ref, o)
 		} else {
 			nv = checkFormatF(ref, o, *sh)
+			if (w.Sched.DenyCreate || sh.name == "name-max") && ref.FormatOK && gaveUp(o, *sh, x) {
+				nv = nil // a faulted run that gave up is not judged
+			}
 		}
 		if nv != nil && nv.class == v.class {
 			return nv
@@ -1999,7 +2017,7 @@ var c16Assumptions = []string{
 	"inputs on which the reference formatter itself panics, and programs on which a generator panics or which the compiler rejects, are skipped (C11/C12/C07 territory)",
 	"format -d may end its output with one newline (Println); format -f must leave exactly the result",
 	"byte comparison of multi-target compile invocations is against the generators run with the same targets in the same order on one model (interference between targets is C14's subject)",
-	"I/O errors are not asserted: the property promises nothing under them (informational probe only); the two environment faults of format -f (no new directory entries, NAME_MAX names) use the relaxed oracle: a run that exits non-zero is not judged, a run that exits 0 must have left exactly the result",
+	"I/O errors are not asserted: the property promises nothing under them (informational probe only); the two environment faults of format -f (no new directory entries, NAME_MAX names) use the relaxed oracle: a run that exits non-zero or leaves the file byte for byte as it was is not judged (the pinned tree itself prints the error and exits 0 when a write fails), a run that exits 0 and changed the file must have left exactly the result",
 	"the host of the C export follows the documented contract: every returned string is freed exactly once with free(), possibly after further calls, and may be read until then; input buffers belong to the host and may change as soon as the call has returned",
 	"host calls interleave at call granularity; two threads inside the export at once are not simulated",
 }
